@@ -144,3 +144,7 @@ Print Assumptions c09_sleep_le_earliest.
 Print Assumptions c09_no_lost_wakeup.
 Print Assumptions c09_outcome_kept.
 Print Assumptions c09_completed_before_deadline_no_attempt.
+Print Assumptions c09_partition_pending.
+Print Assumptions c09_partition_filters.
+Print Assumptions c09_partition_complete.
+Print Assumptions c09_deadline.
